@@ -1030,6 +1030,7 @@ func (e *Eng) finish(fr *Frame) {
 	}
 	if e.isPkgInit() {
 		e.pkgInvObligations(st)
+		e.immutableObligations(st)
 	}
 	// Channel balance: every send on a channel made here (by this function or by the goroutines it started,
 	// as promised by their contracts) is matched by buffer space or by a receive on every path to the
@@ -1275,7 +1276,14 @@ func (e *Eng) pkgInvObligations(st *State) {
 			continue
 		}
 		v, _, _ := e.evalPure(fn, nil, nil, nil, nil, st, st, 0)
-		e.oblige(st, "pkginv.init", c.Label, propsOf(c, e), v.(T), nil, "package initialiser establishes: "+c.Expr)
+		if c.Kind == "fact" {
+			if !e.collect {
+				o := e.addObl("fact", c.Label, propsOf(c, e), "", nil, "closed fact about the initialised package, evaluated on the real code: "+c.Expr, false)
+				o.EvalPkg, o.EvalFn = path, c.SpecFn
+			}
+		} else {
+			e.oblige(st, "pkginv.init", c.Label, propsOf(c, e), v.(T), nil, "package initialiser establishes: "+c.Expr)
+		}
 		// stability
 		globals := map[*ssa.Global]bool{}
 		var scan func(f *ssa.Function, depth int)
@@ -1416,4 +1424,100 @@ func readOnlyUses(v ssa.Value) bool {
 		}
 	}
 	return true
+}
+
+
+// immutableObligations: for every `immutable Type.field` of this package, scan every function of every
+// /repo package: a store to the field (or of a whole value of the struct type) must go into an object
+// allocated by the storing function itself, and the field's address may only be loaded from.
+func (e *Eng) immutableObligations(st *State) {
+	cf, path := e.pkgInvs()
+	if cf == nil {
+		return
+	}
+	for _, c := range cf.Immutables {
+		dot := strings.Index(c.Expr, ".")
+		tn, fname := c.Expr[:dot], c.Expr[dot+1:]
+		sp := e.w.SsaPkgs[path]
+		bad := ""
+		var named types.Type
+		if sp != nil {
+			if m, ok := sp.Members[tn].(*ssa.Type); ok {
+				named = m.Type()
+			}
+		}
+		if named == nil {
+			bad = "no such type"
+		}
+		isT := func(t types.Type) bool { return named != nil && types.Identical(types.Unalias(t), named) }
+		freshAlloc := func(v ssa.Value) bool {
+			_, ok := v.(*ssa.Alloc)
+			return ok
+		}
+		var walk func(f *ssa.Function)
+		walk = func(f *ssa.Function) {
+			for _, b := range f.Blocks {
+				for _, in := range b.Instrs {
+					switch x := in.(type) {
+					case *ssa.FieldAddr:
+						pt, ok := under(x.X.Type()).(*types.Pointer)
+						if !ok || !isT(pt.Elem()) {
+							continue
+						}
+						if fieldName(under(pt.Elem()).(*types.Struct), x.Field) != fname {
+							continue
+						}
+						for _, r := range *x.Referrers() {
+							switch y := r.(type) {
+							case *ssa.UnOp:
+								// load
+							case *ssa.Store:
+								if y.Addr != ssa.Value(x) || !freshAlloc(x.X) {
+									bad = "stored in " + f.String()
+								}
+							case *ssa.DebugRef:
+							default:
+								bad = "address escapes in " + f.String()
+							}
+						}
+					case *ssa.Store:
+						if isT(x.Val.Type()) && !freshAlloc(x.Addr) {
+							bad = "whole value stored in " + f.String()
+						}
+					}
+				}
+			}
+			for _, af := range f.AnonFuncs {
+				walk(af)
+			}
+		}
+		var paths []string
+		for p := range e.w.SsaPkgs {
+			paths = append(paths, p)
+		}
+		sort.Strings(paths)
+		for _, p := range paths {
+			pkg := e.w.SsaPkgs[p]
+			for _, m := range pkg.Members {
+				switch x := m.(type) {
+				case *ssa.Function:
+					walk(x)
+				case *ssa.Type:
+					for _, t := range []types.Type{x.Type(), types.NewPointer(x.Type())} {
+						ms := e.w.Prog.MethodSets.MethodSet(t)
+						for i := 0; i < ms.Len(); i++ {
+							if f := e.w.Prog.MethodValue(ms.At(i)); f != nil && f.Pkg == pkg && f.Synthetic == "" {
+								walk(f)
+							}
+						}
+					}
+				}
+			}
+		}
+		goal := T("true")
+		if bad != "" {
+			goal = "false"
+		}
+		e.oblige(st, "immutable", c.Label, propsOf(c, e), goal, nil, "field "+c.Expr+" is written only while its object is being constructed "+bad)
+	}
 }
